@@ -87,7 +87,7 @@ def clauses (prop : String) (cfg : NetCfg) (seen : List Nat := []) : St → List
                                      previous := us.lastStatus, cycle := s.tick }).map fun k =>
               showStatus cfg { unit := i, kind := k })
           [("status_truthful_and_fresh", expected == o.statuses)]
-        else if prop == "C01" then
+        else if prop == "C01" || prop == "C02" then
           -- every cycle re-asserts the LATEST accepted motion command to every hydraulic unit (lock if there was none)
           let setupLen := if s.isSetup then 0 else ((units cfg).flatMap setupFrames).length
           let isHcuMotion (f : Frame) : Bool :=
